@@ -25,21 +25,27 @@ Call(name, handle, idx) == [name |-> name, handle |-> handle, idx |-> idx]
 HandleCalls == {"serialize", "serialize_sealed", "block_count", "authorize", "print", "public_key_roundtrip",
                 "key_pair_roundtrip", "from_bytes", "append_block", "authorizer_from_token", "builder_build"}
 IndexCalls == {"block_context", "print_block_source"}
+\* calls whose handle is the token: they can also be made on a SEALED token (the sealed serialization read back)
+TokenCalls == {"serialize", "serialize_sealed", "block_count", "authorize", "print", "append_block", "authorizer_from_token"}
+\* a sealed token can neither be extended nor sealed again: the Rust operation fails, and so does the C call
+RefusedOnSealed == {"append_block", "serialize_sealed"}
 Calls ==
     {Call(n, h, 0) : n \in HandleCalls, h \in {"live", "null"}}
-    \cup {Call(n, "live", i) : n \in IndexCalls, i \in 0..(NBlocks + 1)}
+    \cup {Call(n, "sealed", 0) : n \in TokenCalls}
+    \cup {Call(n, h, i) : n \in IndexCalls, i \in 0..(NBlocks + 1), h \in {"live", "sealed"}}
     \cup {Call(n, "null", 0) : n \in IndexCalls}
 
 \* outcome of a call: "value" (equal to the Rust operation's result) or "error"
 Outcome(c) ==
     IF c.handle = "null" THEN "error"
     ELSE IF c.name \in IndexCalls /\ c.idx >= NBlocks THEN "error"
+    ELSE IF c.handle = "sealed" /\ c.name \in RefusedOnSealed THEN "error"
     ELSE "value"
 
 \* what the error slot holds after the call
 ErrorAfter(c, before) ==
     IF Outcome(c) = "error"
-    THEN (IF c.handle = "null" THEN "InvalidArgument" ELSE "InvalidBlockId")
+    THEN (IF c.handle = "null" THEN "InvalidArgument" ELSE IF c.name \in IndexCalls THEN "InvalidBlockId" ELSE "Sealed")
     ELSE before                                  \* a successful call leaves the slot alone
 
 VARIABLES alg, balg, calls, err, outs
